@@ -1,5 +1,6 @@
 (** C09 — structural part: the token sequence of a serialized value, and what the parser
-    makes of it.  [ser raw_name] is the pinned writer; [wf] carries [regular_name]. *)
+    makes of it.  [ser esc_iso] is the (repaired) main writer, [ser raw_name] the writer before the repair;
+    [wf] = [wf_gen bytes_ok], [wf_pinned] = [wf_gen regular_name]. *)
 From OxVerif Require Import Base.Util C09.Model C09.Tokens C09.FracSweep.
 Require Import Lia ZifyBool.
 
@@ -289,20 +290,20 @@ Qed.
 
 (** * Statements in the form used by Props (serializer output followed by anything the writer
     puts after a value: nothing, a space, a line feed or a closing bracket) *)
-Lemma lex_ser_str : forall s rest, lex1 (ser raw_name (OStr s) ++ rest) = (TStr s, rest).
+Lemma lex_ser_str : forall nm s rest, lex1 (ser nm (OStr s) ++ rest) = (TStr s, rest).
 Proof. intros. cbn [ser]. rewrite <- app_comm_cons, <- app_assoc. apply lex1_str. Qed.
-Lemma lex_ser_hex : forall s rest, bytes_ok s = true -> lex1 (ser raw_name (OHex s) ++ rest) = (TStr s, rest).
+Lemma lex_ser_hex : forall nm s rest, bytes_ok s = true -> lex1 (ser nm (OHex s) ++ rest) = (TStr s, rest).
 Proof. intros. cbn [ser]. rewrite <- app_comm_cons, <- app_assoc. apply lex1_hex. assumption. Qed.
 Lemma lex_ser_name : forall n rest, regular_name n = true -> good_rest rest ->
   lex1 (ser raw_name (OName n) ++ rest) = (TName n, rest).
 Proof. intros. cbn [ser]. rewrite <- app_comm_cons. apply lex1_name; assumption. Qed.
-Lemma lex_ser_int : forall z rest, int_ok z = true -> good_rest rest ->
-  lex1 (ser raw_name (OInt z) ++ rest) = (TInt z, rest).
+Lemma lex_ser_int : forall nm z rest, int_ok z = true -> good_rest rest ->
+  lex1 (ser nm (OInt z) ++ rest) = (TInt z, rest).
 Proof. intros. apply lex1_int; assumption. Qed.
-Lemma lex_ser_null : forall rest, good_rest rest -> lex1 (ser raw_name ONull ++ rest) = (TNull, rest).
+Lemma lex_ser_null : forall nm rest, good_rest rest -> lex1 (ser nm ONull ++ rest) = (TNull, rest).
 Proof. intros. apply lex1_null. assumption. Qed.
-Lemma lex_ser_bool : forall b rest, good_rest rest -> lex1 (ser raw_name (OBool b) ++ rest) = (TBool b, rest).
-Proof. intros [|] rest G; [apply lex1_true | apply lex1_false]; assumption. Qed.
+Lemma lex_ser_bool : forall nm b rest, good_rest rest -> lex1 (ser nm (OBool b) ++ rest) = (TBool b, rest).
+Proof. intros nm [|] rest G; [apply lex1_true | apply lex1_false]; assumption. Qed.
 
 (** the escaper of the incremental writer: every name of bytes, then a delimiter *)
 Lemma lex_esc_name : forall n rest, bytes_ok n = true -> good_rest rest ->
@@ -313,18 +314,40 @@ Proof.
   rewrite (read_name_esc n rest H (good_rest_nd _ G)). reflexivity.
 Qed.
 
-(** * Refuted full statements (pinned tree), by witness *)
-Definition b (s : string) : bytes := bytes_of_string s.
-Definition roundtrips (v : obj) : bool := opobj_eqb (option_map canon (parse (ser raw_name v))) (Some (canon (norm v))).
+(** the escaper of the repaired main writer: every name of bytes, then a delimiter *)
+Lemma lex_esc_iso_name : forall n rest, bytes_ok n = true -> good_rest rest ->
+  lex1 (47 :: esc_iso n ++ rest) = (TName n, rest).
+Proof.
+  intros n rest H G. cbn [lex1]. change (is_ws 47) with false. change (47 =? 59) with false. change (problematic 47) with false.
+  cbv iota. unfold lex_tok. cbn [N.eqb Pos.eqb].
+  rewrite (read_name_esc_iso n rest H (good_rest_nd _ G)). reflexivity.
+Qed.
+Lemma lex_ser_name_iso : forall n rest, bytes_ok n = true -> good_rest rest ->
+  lex1 (ser esc_iso (OName n) ++ rest) = (TName n, rest).
+Proof. intros. cbn [ser]. rewrite <- app_comm_cons. apply lex_esc_iso_name; assumption. Qed.
 
-Lemma name_raw_refuted : exists n, regular_name n = false /\ roundtrips (OName n) = false
-                                   /\ parse (ser raw_name (ODict [(n, OInt 1)])) = None.
+(** * Refuted full statements, by witness *)
+Definition b (s : string) : bytes := bytes_of_string s.
+Definition roundtrips (v : obj) : bool := opobj_eqb (option_map canon (parse (ser esc_iso v))) (Some (canon (norm v))).
+(** the writer before the repair (names raw): kept as a record about [ser raw_name] *)
+Definition roundtrips_pinned (v : obj) : bool := opobj_eqb (option_map canon (parse (ser raw_name v))) (Some (canon (norm v))).
+
+Lemma name_raw_refuted_pinned : exists n, regular_name n = false /\ roundtrips_pinned (OName n) = false
+                                   /\ parse (ser raw_name (ODict [(n, OInt 1)])) = None
+                                   /\ roundtrips (OName n) = true
+                                   /\ parse (ser esc_iso (ODict [(n, OInt 1)])) = Some (PDict [(n, PInt 1)]).
 Proof. exists (b "My Image"). vm_compute. repeat split. Qed.
-Lemma int_int_nameR_refuted : exists v, wf v = false /\ parse (ser raw_name v) = Some (PArr [PRef 1 0]) /\ roundtrips v = false.
+(** what remains of the name finding after the repair: the reader decodes one char per byte, so a
+    non-ASCII source String (UTF-8 bytes C3 A9 = "é") comes back as the two chars U+00C3 U+00A9 *)
+Lemma name_nonascii_refuted : exists n, wf (OName n) = true /\ ascii_name n = false
+                                   /\ parse (ser esc_iso (OName n)) = Some (PName n)
+                                   /\ strview (PName n) = PName [195; 131; 194; 169] /\ n = [195; 169].
+Proof. exists [195; 169]. vm_compute. repeat split. Qed.
+Lemma int_int_nameR_refuted : exists v, wf v = false /\ parse (ser esc_iso v) = Some (PArr [PRef 1 0]) /\ roundtrips v = false.
 Proof. exists (OArr [OInt 1; OInt 0; OName (b "R")]). vm_compute. repeat split. Qed.
-Lemma real_ge_2p63_refuted : exists v, wf v = false /\ parse (ser raw_name v) = None.
+Lemma real_ge_2p63_refuted : exists v, wf v = false /\ parse (ser esc_iso v) = None.
 Proof. exists (OReal false 9223372036854775808000000). vm_compute. repeat split. Qed.
-Lemma objnum_refuted : exists v, wf v = false /\ parse (ser raw_name v) = Some (PInt 10000000).
+Lemma objnum_refuted : exists v, wf v = false /\ parse (ser esc_iso v) = Some (PInt 10000000).
 Proof. exists (ORef 10000000 0). vm_compute. repeat split. Qed.
 Lemma incr_nonascii_refuted : exists n, bytes_ok n = true /\ parse (ser_incr (OName n)) = Some (PName [195; 169]) /\ n = [233].
 Proof. exists [233]. vm_compute. repeat split. Qed.
@@ -335,5 +358,12 @@ Definition sample : obj :=
         OStr (b "a(b\)" ++ [13; 10; 0; 255]); OHex [0; 255; 16];
         ODict [(b "Zed", OArr [OInt 1; OInt 0; ORef 7 0]); (b "A{b}", OName (b "R")); (b "", ONull)];
         OBool true; OArr []; ODict []; ORef 9999999 65535].
-Example sample_wf_roundtrips : wf sample = true /\ parse (ser raw_name sample) = Some (norm sample).
+Example sample_wf_roundtrips_pinned : wf_pinned sample = true /\ parse (ser raw_name sample) = Some (norm sample).
 Proof. vm_compute. split; reflexivity. Qed.
+(** the same with names over every ASCII class the old writer broke (white space, delimiters, '#', controls) *)
+Definition sample_names : obj :=
+  OArr [sample; OName (b "My Image"); OName (b "A#20"); OName (b "Im{1}"); OName [0; 9; 10; 12; 13; 127];
+        ODict [(b "a (b) <c> [d] /e %f", OName (b "#")); (b "k 2", OArr [OName (b "x y"); OInt 3])]].
+Example sample_wf_roundtrips : wf sample_names = true /\ wf_pinned sample_names = false /\ ascii_names sample_names = true
+  /\ parse (ser esc_iso sample_names) = Some (norm sample_names) /\ strview (norm sample_names) = norm sample_names.
+Proof. vm_compute. repeat split; reflexivity. Qed.
